@@ -30,6 +30,15 @@ CONFIG = dict(
              '(quick: first step on tree 0). `share`: random sequences on 2-3 trees over 2..8 keys, every mutation (incl. Erase, CloneDeep, refill of all gaps) followed by the reads on all trees. '
              'Scale cases `scale-shared-*`: three trees of 257 / 2 000 (thorough 100 000) equal keys on one allocator that hand blocks of 33 / 300 / 1 000 cells to each other (qkeys = Get / FindGE / FindLE at a '
              'key sequence on every tree before and after), Erase + re-use of a tree, CloneDeep mutated next to its original. '
+             'FORK streams (round 4, R4-6 two features at once: several trees on one allocator x fork x free-list re-use x hibernation; harness/cmd/c05/fork.go): (fork a) = Allocator.Clone() of arena a + '
+             'CloneShallow() of each of its trees (the fork idiom of leaves/burndown.go; up to 4 arenas, forks of forks), (hib a) = Hibernate() + Boot() under living trees and iterators; after EVERY operation every '
+             'arena (cells, gaps, headers, Used()) is recorded and every tree of every arena is judged, so a write of one side that shows on the other, a header or cell not copied and a free list that offers a live cell '
+             '(PROPFAIL "the free list of the allocator contains node n, which is an element of one of its trees") are seen at once; the generators know the number of genuine gaps of every arena and let one tree insert '
+             'gaps + ntrees + 1 new keys, so that a wrongly freed cell is certainly handed out. `forkex`: (2 trees with sizes in {0, 1, 2, 3, 6}, 3 trees with sizes in {0, 1, 2, 5}: the empty tree, the ROOT-ONLY tree, ...) x '
+             '(0..2 genuine gaps at fork time), drawn universe / fill order / hibernation before and after the fork / side mutated first / draining tree / second-level fork with Erase and re-use in its parent; both sides are mutated, '
+             'all trees of all arenas are read (Get, FindGE, FindLE, Len, complete Next / Prev iterations), iterators are held across the fork. `forkrnd`: random mutations on random trees of random arenas with forks, hibernations '
+             'and drains in between. Scale cases `scale-fork-*` (macro (forksw hib): the case goes on with the fork): a tree of 257 / 2 000 / 20 000 (thorough 65 537 / 300 000) keys, a root-only tree and an empty tree with 50 genuine gaps, '
+             'fork, the big tree re-uses the gaps, all trees grow and shrink, a second fork (hibernated and booted) before an iterator sweep. '
              'Non-trivial = at least 3 successful insertions and 1 successful deletion; distinct = distinct (number of trees, operation list).',
         exhaustive_note='every sequence of 4 Insert/DeleteWithKey operations over 6 keys (20 736) and of 5 over 4 keys (32 768) in the quick tier; of 5 over '
                         '6 keys (248 832) and of 7 over 3 keys (279 936) in the thorough tier; the arena is compared after every operation, so all shorter sequences are covered as prefixes; '
@@ -40,7 +49,7 @@ CONFIG = dict(
             'and fed to the model as an explicit choice; the theorems quantify over every choice the model accepts (a gap if there is one, else len(storage))',
             'the theorems exclude what the Go API leaves undefined: iterators that do not point into the tree they are used with (deleted element, other tree), '
             'CloneDeep onto a slot that still owns nodes; the harness never does these (an operation on an invalidated register is skipped on both sides)',
-            'hibernation / serialisation of the allocator is C06 and is not modelled here',
+            'hibernation / serialisation of the allocator is C06 and is not modelled here: (hib a) = Hibernate() + Boot() is replayed as the identity (nothing in the arena, the gaps or the headers may change); (fork a) is replayed as a copy of the model state and of the sorted maps of arena a',
         ],
         trusted_base=[
             'hand-written Gallina model coq/theories/RBTree/Model.v + Arena.v of internal/rbtree/rbtree.go (recursive tree with node ids; parent links, minNode/maxNode/count derived), '
@@ -59,7 +68,7 @@ CONFIG = dict(
                    'operation on every tree unless that operation removes it - including the predecessor swap of doDelete), C05_arena_links (derived parent links consistent), '
                    'C05_frame (operations on one tree leave the others untouched), C05_oracle_sound (the snapshot oracle used on the real arena is sound).',
         level_note='Proved about the Gallina model, not about the Go text (no verified Go semantics): the tie is the replay - on the unchanged repository zero disagreements on '
-                   'about 70 000 cases / 1.2 million operations per quick run, node for node and link for link, plus 39 large trees (0.7 million insertions, 0.85 million nodes compared at checkpoints). Modelled rather than verified: all of rbtree.go. The model is a '
+                   'about 71 000 cases / 1.3 million operations per quick run, node for node and link for link, plus 42 large trees (0.7 million insertions, 0.85 million nodes compared at checkpoints). Modelled rather than verified: all of rbtree.go. The model is a '
                    'recursive tree, not a pointer structure: parent links, minNode/maxNode and count are DERIVED from the shape (C05_arena_links proves the derived links consistent; '
                    'that the incrementally maintained Go fields equal the derived ones is checked by the replay and by the oracle on every snapshot). doDelete(node) is modelled as '
                    'deletion of that node\'s key (equal on search trees with distinct ids, which the invariant provides). Several trees on one allocator are separate values in the model, so '
